@@ -297,7 +297,7 @@ func (p *c06) Init(tier string, seed int64) {
 		if sk.name == "nil" || sk.name == "null-literal" || sk.name == "empty map" {
 			continue
 		}
-		for ni, v := range []interface{}{5, "str", gen.NewThing()} {
+		for ni, v := range []interface{}{5, "str", gen.NewThing(), ""} {
 			for where := 0; where < 3; where++ {
 				sk, ni, v, where := sk, ni, v, where
 				p.enum = append(p.enum, func() (*Program, string) {
@@ -321,7 +321,7 @@ func (p *c06) Init(tier string, seed int64) {
 		}
 	}
 	// --- non-iterables must be an error ---
-	for ni, v := range []interface{}{5, 2.5, "str", true, struct{ A int }{1}, gen.NewThing()} {
+	for ni, v := range []interface{}{5, 2.5, "str", true, struct{ A int }{1}, gen.NewThing(), "", " ", "0", 0, false, gen.KeyStr(""), gen.KeyInt(0), int8(0), 0.0} {
 		ni, v := ni, v
 		p.enum = append(p.enum, func() (*Program, string) {
 			f := &gen.NFor{Val: "v", Seq: nm("seq"), Body: []gen.Node{tx("x")}, HasElse: true, Else: []gen.Node{tx("E")}}
@@ -486,7 +486,7 @@ func (p *c06) Run(i int) (res fw.Result) {
 }
 
 func (p *c06) Rule() string {
-	return "enumerated (exhaustive within the bound): every if-chain shape with <=3 elseif x optional else x every truth assignment; truthiness of each scalar class; every sequence kind (array literal, range, []int, []string, []Value, *[]int, [3]int, single-entry map, hash literal, nil, null, empty map) x length 0..8 x {value only, key+value, with else, nested in an outer loop with loop.parent, the outer loop's key and value read inside the inner loop} printing key, value and all seven loop fields at every position, with context variables named like every loop variable; inline-if loops for every element mask of length 1..5 and comparison conditions; non-iterables (numbers, strings, bools, structs) must be an error. Random: nestings of if/elseif/else and for (depth<=4) with boolean conditions from the expression region and loop fields printed at every depth. Oracle: reference model output and error-or-not. Loop fields are not printed inside inline-if bodies and the else-branch of a fully filtered non-empty loop is not exercised (stick and Twig differ there; the statement only promises which elements are rendered). Non-trivial: enumerated cases are distinct by construction; random ones need a loop nested in or containing another construct."
+	return "enumerated (exhaustive within the bound): every if-chain shape with <=3 elseif x optional else x every truth assignment; truthiness of each scalar class; every sequence kind (array literal, range, []int, []string, []Value, *[]int, [3]int, single-entry map, hash literal, nil, null, empty map) x length 0..8 x {value only, key+value, with else, nested in an outer loop with loop.parent, the outer loop's key and value read inside the inner loop} printing key, value and all seven loop fields at every position, with context variables named like every loop variable; inline-if loops for every element mask of length 1..5 and comparison conditions; non-iterables (numbers, strings, bools, structs - also the empty string, 0 and false, which are empty but no sequences) must be an error. Random: nestings of if/elseif/else and for (depth<=4) with boolean conditions from the expression region and loop fields printed at every depth. Oracle: reference model output and error-or-not. Loop fields are not printed inside inline-if bodies and the else-branch of a fully filtered non-empty loop is not exercised (stick and Twig differ there; the statement only promises which elements are rendered). Non-trivial: enumerated cases are distinct by construction; random ones need a loop nested in or containing another construct."
 }
 
 func (p *c06) Assumptions() []string {
